@@ -850,12 +850,14 @@ class Program:
             return self.deref(self.rval(n.expr, env), n)
         raise unsupported('lvalue %s' % type(n).__name__, n)
 
-    def base_of(self, n, env):
-        """array designator or pointer value of the expression indexed by []"""
+    def base_of(self, n, env, write=False):
+        """array designator or pointer value of the expression indexed by []
+        write: the element is about to be written / its address taken (a union member on the way
+        becomes the active one instead of counting as a read of an inactive member)"""
         if isinstance(n, (A.ID, A.StructRef, A.ArrayRef)) or (isinstance(n, A.UnaryOp) and n.op == '*'):
             if isinstance(n, A.ID) and n.name not in env and n.name not in self.globals:
                 raise unsupported('unknown identifier %s' % n.name, n)
-            o = self.lval(n, env)
+            o = self.lval(n, env, write)
             if isinstance(o, ArrayObj):
                 return o
             return self.load(o, n)
@@ -1016,7 +1018,8 @@ class Program:
         if op == '&':
             inner = n.expr
             if isinstance(inner, A.ArrayRef):
-                base = self.base_of(inner.name, env)
+                # &u.member.buf[i]: forming the address of an element is not a read of the member
+                base = self.base_of(inner.name, env, write=True)
                 idx = self.rval(inner.subscript, env)
                 if isinstance(base, ArrayObj):
                     base = Ptr(base, 0)
